@@ -229,7 +229,8 @@ def specOK (c : Case) (o : Obs) : Bool :=
   presenceOK c.top o.pm && leavesOK o.pm o.leaves &&
   (match o.v with
    | .panic => false
-   | .res r => errorsOK (want c o) c.opts c.single r) &&
+   -- the cap is demanded whatever the rules are (K05l repaired: a field may yield several errors)
+   | .res r => errorsOK (want c o) c.opts true r) &&
   !o.leak && o.det
 
 def step (line : String) : String :=
